@@ -405,14 +405,14 @@ end SMGo.Proofs.ISAVal
 /-
   NOT PROVED: the same statement for the listings of cryptoBlockAsmX2 / X4 / X8 / X16 (tests only:
   SMGo/Proofs/ISAValTests.lean).  What exists and carries over unchanged: the step lemmas (ISAValStep), the lane
-  algebra (ISAValLanes: `lane_map2`, `lane_vpxord`, `lane_vprold`, `lane_bcast` hold for every lane `i < n`),
-  the run/decode bridge (`run_of_decode`), the specification side (`foldl_stepN`, `ofNat_TN`).  What is missing:
-    (1) `lane0_gfAffine` / `lane0_sbox` for lane `j < vl/4` of a Y/Z register (qword `j/2`, half `j%2`), hence
-        `round_spec` with the conclusion for every lane instead of lane 0;
-    (2) the prologue/epilogue of the wide kernels: VBROADCASTI32X4 of `Shuffle<>`, four (two for X2) vector loads,
-        `rev32` on each 128-bit lane (`x_rev32` is for one lane), and the 4×4 dword transposes built from
-        VPUNPCK{L,H}DQ / VPUNPCK{L,H}QDQ per 128-bit lane (`x_unpck*` are for one lane), giving
-        "dword 4l+m of state register k = word k of block 4·m'+l" — and back, with four stores.
+  algebra (ISAValLanes), the run/decode bridge (`run_of_decode`), the specification side (`foldl_stepN`, `ofNat_TN`),
+  and — SMGo/Proofs/ISAValRoundL.lean — the round lemma for EVERY dword lane at every vector length
+  (`laneJ_gfAffine`, `laneJ_sbox`, `round_specL`), the 32-round invariant (`readyL_rounds`) and the fact that the
+  544 middle instructions of each wide listing are these rounds (`wide_kernels_rounds`).
+  What is missing is the prologue/epilogue of the wide kernels: VBROADCASTI32X4 of `Shuffle<>`, four (two for X2)
+  vector loads, `rev32` on each 128-bit lane (`x_rev32` is for one lane), and the 4×4 dword transposes built from
+  VPUNPCK{L,H}DQ / VPUNPCK{L,H}QDQ per 128-bit lane (`x_unpck*` are for one lane), giving
+  "dword 4l+m of state register k = word k of block (vl/16)·m+l" — and back, with four stores.
 -/
 
 #print axioms SMGo.Proofs.ISAVal.kernelX1_eq_spec
